@@ -47,7 +47,7 @@ let num_of_string (s:string) : num =
 let rec str_expr (e:expr) = match e with
   | Const x -> "(c " ^ str_num x ^ ")"
   | Var v -> "(v " ^ str_n v ^ ")"
-  | Un (u, c) -> "(" ^ (match u with UNeg -> "neg" | UFact -> "fact" | USgn -> "sgn") ^ " " ^ str_expr c ^ ")"
+  | Un (u, c) -> "(" ^ (match u with UNeg -> "neg" | UFact -> "fact" | USgn -> "sgn" | UAbs -> "abs") ^ " " ^ str_expr c ^ ")"
   | Bin (k, l, r) -> "(" ^ (match k with KEq -> "eq" | KAdd -> "add" | KSub -> "sub" | KMul -> "mul" | KDiv -> "div" | KPow -> "pow") ^ " " ^ str_expr l ^ " " ^ str_expr r ^ ")"
 let tokens_of (s:string) : string list =
   let b = Buffer.create 16 in let out = ref [] in
@@ -61,8 +61,8 @@ let rec read (ts:string list) : expr * string list = match ts with
   | "(" :: "v" :: x :: ")" :: r -> (Var (n_of_int (int_of_string x)), r)
   | "(" :: op :: r ->
     (match op with
-     | "neg" | "fact" | "sgn" -> let (c, r) = read r in
-        let u = (match op with "neg" -> UNeg | "fact" -> UFact | _ -> USgn) in
+     | "neg" | "fact" | "sgn" | "abs" -> let (c, r) = read r in
+        let u = (match op with "neg" -> UNeg | "fact" -> UFact | "abs" -> UAbs | _ -> USgn) in
         (match r with ")" :: r -> (Un (u, c), r) | _ -> failwith "un")
      | _ -> let k = (match op with "eq" -> KEq | "add" -> KAdd | "sub" -> KSub | "mul" -> KMul | "div" -> KDiv | "pow" -> KPow | _ -> failwith ("op " ^ op)) in
         let (a, r) = read r in let (b, r) = read r in
